@@ -55,6 +55,7 @@ class Model:
             s[("pc", ti)] = Int("pc_%s_%d" % (p.tname, t))
             s[("exc", ti)] = Int("exc_%s_%d" % (p.tname, t))
             s[("loops", ti)] = Int("loops_%s_%d" % (p.tname, t))
+            s[("deadline", ti)] = Int("deadline_%s_%d" % (p.tname, t))
             for ln in p.locals:
                 s[("loc", ti, ln)] = V(Int("l_%s_%s_i_%d" % (p.tname, ln, t)), z3.Bool("l_%s_%s_n_%d" % (p.tname, ln, t)),
                                        Int("l_%s_%s_s_%d" % (p.tname, ln, t)), Int("l_%s_%s_l_%d" % (p.tname, ln, t)),
@@ -84,6 +85,7 @@ class Model:
             cs.append(s[("pc", ti)] == p.entry)
             cs.append(s[("exc", ti)] == 0)
             cs.append(s[("loops", ti)] == 0)
+            cs.append(s[("deadline", ti)] == 0)
             binds = dict(p.init_binds)
             for ln in p.locals:
                 v = s[("loc", ti, ln)]
@@ -197,6 +199,8 @@ class Model:
                 op = ins.op
                 if op in ("nop",):
                     pass
+                elif op == "trap":
+                    guard = z3.BoolVal(False)
                 elif op == "call":
                     for ln, ve in ins.a[1]:
                         put(("loc", ti, ln), act, self.val(ve, a, ti))
@@ -228,14 +232,20 @@ class Model:
                     for tj in range(nthreads):
                         put(("slp", ins.a, tj), act, z3.BoolVal(False))
                 elif op == "wait_sleep":
-                    lock = self.world[ins.a].fields["lock"]
+                    cname, tmo = ins.a
+                    lock = self.world[cname].fields["lock"]
                     put(("own", lock), act, IntVal(-1))
-                    put(("slp", ins.a, ti), act, z3.BoolVal(True))
+                    put(("slp", cname, ti), act, z3.BoolVal(True))
+                    tv = self.val(tmo, a, ti)
+                    put(("deadline", ti), act, a["clock"] + z3.If(tv.none, IntVal(0), tv.i))
                 elif op == "wait_wake":
                     cname, tmo = ins.a
                     tv = self.val(tmo, a, ti)
                     guard = z3.Or(z3.Not(a[("slp", cname, ti)]), z3.Not(tv.none))       # notified, or a timed wait expires
                     put(("slp", cname, ti), act, z3.BoolVal(False))
+                    # waking up without a notify means the timeout elapsed: the clock is at least the deadline
+                    expired = z3.And(act, a[("slp", cname, ti)])
+                    put("clock", expired, z3.If(a["clock"] < a[("deadline", ti)], a[("deadline", ti)], a["clock"]))
                 elif op == "wait_reacquire":
                     lock = self.world[ins.a].fields["lock"]
                     guard = a[("own", lock)] == -1
